@@ -276,7 +276,9 @@ StdRT2 == {<<"H">>, <<"S">>, <<"E">>, <<"F">>, <<"G">>, <<"O">>, <<"U">>}
 \* standard ones is a user record.  L, C, P are refused by gfapy (documented).
 VCustomRT(s) == LET ok == s # <<>> /\ AllIn(s, Graph) /\ s[1] # "#" /\ s \notin StdRT2 IN
   V(ok /\ s[1] \in Letter /\ s \notin {<<"L">>, <<"C">>, <<"P">>}, ok)
-VComment(s) == V("\n" \notin Rng(s), FALSE)
+\* a comment is one line: no line break inside.  A single line break at the very end is the
+\* line terminator offered together with the line: not judged
+VComment(s) == V("\n" \notin Rng(s), s # <<>> /\ "\n" \notin Rng(FrontOf(s)))
 VGeneric(s) == V(s # <<>> /\ "\n" \notin Rng(s) /\ "\t" \notin Rng(s), s = <<>>)
 
 FieldVerdict(dt, s) ==
@@ -439,7 +441,8 @@ VCross(ver, rt, f, indoc) ==
 
 LineVerdict(ver, f, indoc) ==
   IF f = <<>> \/ f[1] = <<>> THEN "rej"                       \* no record type
-  ELSE IF f[1][1] = "#" THEN Worst({VComment(f[k]) : k \in DOMAIN f})
+  ELSE IF f[1][1] = "#" THEN      \* a comment: the whole text, tabs included
+       Worst({V("\n" \notin Rng(f[k]), FALSE) : k \in 1..(Len(f) - 1)} \cup {VComment(f[Len(f)])})
   ELSE IF Len(f[1]) = 1 /\ f[1][1] \in StdRT(ver) THEN
     LET rt == f[1][1]
         n == Len(PosTypes(ver, rt)) IN
